@@ -297,6 +297,8 @@ def run(repo, R):
     R.rule("PITFALL", "no result buffer typed after an input, no real cast of a transformation, no unbuffered accumulation / first-occurrence scatter through np.unique")
     from ..pitfalls import report as _pitfalls
     _pitfalls(repo, R, ['gbasis.base', 'gbasis.base_one', 'gbasis.base_two_symm', 'gbasis.base_two_asymm', 'gbasis.base_four_symm', 'gbasis.spherical'])
+    # the public wrappers that dispatch on the coordinate types: every branch must bind what it returns
+    _pitfalls(repo, R, ['gbasis.integrals', 'gbasis.evals'], kinds=("UNDEF",), only=lambda f_: not f_.name.startswith("_") and "." not in f_.qualname[len(f_.module.name) + 1:])
     R.rule("A1", "every block is self.construct_array_contraction(shells in loop order, **kwargs), once per unique block")
     R.rule("A2/A3", "per index position exactly one in-place multiply by that shell's norm_cont on its (M,L) axes, then - iff the shell is "
                     "spherical - one tensordot with that shell's own Cartesian->spherical matrix contracting L")
